@@ -504,7 +504,14 @@ class ANF:
             if isinstance(e, (ast.Tuple, ast.List)):
                 self._bind_loop_targets(e, base, env, path + (k,))
             elif isinstance(e, ast.Name):
-                env[e.id] = base + (path + (k,) if path else k,)
+                if path:
+                    # for a, (b, c) in it: b is component 0 of the loop's second variable
+                    v = base + (path[0],)
+                    for k2 in path[1:] + (k,):
+                        v = read(v, (C(k2),))
+                    env[e.id] = v
+                else:
+                    env[e.id] = base + (k,)
             else:
                 raise Unsupported("loop target %s" % U(e))
 
@@ -737,7 +744,20 @@ class ANF:
                 it = self.eval(g.iter, e2, cond, loops)
                 self._bound += 1
                 b = self._bound
-                self._bind_comp(g.target, ("b", b), e2)
+                dict_items = it[0] == "call" and it[1][0] == "attr" and it[1][2] in ("items", "values") and not it[2] and not it[3]
+                if dict_items and it[1][2] == "items" and isinstance(g.target, (ast.Tuple, ast.List)) and len(g.target.elts) == 2 \
+                        and all(isinstance(x, ast.Name) for x in g.target.elts):
+                    # `for k, v in d.items()` is `for k in d.keys()` with v = d[k]  (the same normal form as the statement loop)
+                    d_ = it[1][1]
+                    it = ("call", ("attr", d_, "keys"), (), ())
+                    e2[g.target.elts[0].id] = ("b", b)
+                    e2[g.target.elts[1].id] = read(d_, (("b", b),))
+                elif dict_items and it[1][2] == "values" and isinstance(g.target, ast.Name):
+                    d_ = it[1][1]
+                    it = ("call", ("attr", d_, "keys"), (), ())
+                    e2[g.target.id] = read(d_, (("b", b),))
+                else:
+                    self._bind_comp(g.target, ("b", b), e2)
                 gens.append((("b", b), it, tuple(self.eval(i, e2, cond, loops) for i in g.ifs)))
             if isinstance(e, ast.DictComp):
                 elt = ("kv", self.eval(e.key, e2, cond, loops), self.eval(e.value, e2, cond, loops))
@@ -904,10 +924,18 @@ class ANF:
                     env[f.value.id] = ("op", "++", env[f.value.id], ("list", (args[0],)))
                 if f.attr == "get" and len(args) == 1 and not kw:
                     args = args + [C(None)]         # mapping.get(k) is mapping.get(k, None)
+                if f.attr == "setdefault" and len(args) == 2 and not kw:
+                    # d.setdefault(k, v) is d[k] = d.get(k, v): the store is recorded next to the call
+                    self.ev("store", e, cond, loops, base=recv, index=(args[0],), value=("call", ("attr", recv, "get"), (args[0], args[1]), ()),
+                            aug=False, target=e, aug_op=None, aug_operand=None)
                 if f.attr in ARRAY_METHODS_AS_FUNCS and recv[0] not in ("dict", "list", "tuple", "set", "c", "new"):
                     # x.argsort() is np.argsort(x) (numpy dispatches the function to the method for non-ndarrays)
                     fn = ("x", "numpy." + f.attr)
                     args = [recv] + args
+                elif f.attr == "add" and len(args) == 1 and not kw:
+                    # s.add(x) is s.update([x])
+                    fn = ("attr", recv, "update")
+                    args = [("list", (args[0],))]
                 else:
                     fn = ("attr", recv, f.attr)
                 t = ("call", fn, tuple(args), kw)
